@@ -10,9 +10,9 @@ Import ListNotations.
 Local Open Scope Z_scope.
 
 (* a column to be added: ColumnInfo::GetCode, ItemTraits::GetSize<Item>, ItemTraits::GetAlignment<Item> *)
-Record col := mkcol { c_code : Z; c_size : Z; c_align : Z }.
+Record col := mkcol { c_code : Z; c_size : Z; c_align : Z; c_mut : bool }.   (* c_mut = ColumnTraits::IsMutable(column) *)
 (* ColumnRecord: code + mOffset (size/alignment are ghost fields, the C++ record only has the type_info) *)
-Record crec := mkrec { r_code : Z; r_off : Z; r_size : Z; r_align : Z }.
+Record crec := mkrec { r_code : Z; r_off : Z; r_size : Z; r_align : Z; r_mut : bool }.
 
 Definition addends_t := Z -> Z.               (* std::array<size_t, vertexCount> *)
 Definition graph := Z -> list (Z * Z).        (* mEdges[v]: linked list of (edge->vertex, edge->value), head first *)
@@ -20,7 +20,18 @@ Definition graph := Z -> list (Z * Z).        (* mEdges[v]: linked list of (edge
 Record state := mkst {
   codeParam : Z; addends : addends_t; totalSize : Z; alignment : Z;
   codeSet : list Z;            (* mColumnCodeSet, abstractly *)
-  columns : list crec }.       (* mColumns, in order of addition *)
+  columns : list crec;         (* mColumns, in order of addition *)
+  mutCount : Z;                (* mMutableOffsets.GetCount() *)
+  mutBytes : Z -> Z }.         (* mMutableOffsets items (uint8_t), 0 beyond mutCount *)
+
+(* UIntMath<uint8_t>::GetBit / SetBit on a byte array (Utility.h) *)
+Definition GetBit (data : Z -> Z) (bitIndex : Z) : bool :=
+  negb (Z.eqb (Z.land (data (bitIndex / 8)) (wrapU 8 (Z.shiftl 1 (wrapU 8 (bitIndex mod 8))))) 0).
+Definition SetBit (data : Z -> Z) (bitIndex : Z) : Z -> Z :=
+  upd data (bitIndex / 8) (wrapU 8 (Z.lor (data (bitIndex / 8)) (wrapU 8 (Z.shiftl 1 (wrapU 8 (bitIndex mod 8)))))).
+(* Array<uint8_t>::SetCount(count, uint8_t{0}): new items are zero, items beyond the new count are gone *)
+Definition set_count (old n : Z) (b : Z -> Z) : Z -> Z :=
+  fun i => if Z.ltb i n && Z.ltb i old then b i else 0.
 
 Definition g_empty : graph := fun _ => [].
 (* Graph::pvAddEdge: the new edge becomes the head of mEdges[vertex1] *)
@@ -81,7 +92,7 @@ Section WithL.
   Definition dfs_fuel : nat := S (Z.to_nat vertexCount).
   Definition rowNumberSize : Z := if keep then 8 else 0.
 
-  Definition init : state := mkst 0 (fun _ => 0) rowNumberSize 1 [] [].
+  Definition init : state := mkst 0 (fun _ => 0) rowNumberSize 1 [] [] 0 (fun _ => 0).
 
   Definition GetVertices := Gen_Vertices.GetVertices L.
 
@@ -103,7 +114,7 @@ Section WithL.
       let offset2 := wrapU 64 (offset1 + c_size c) in
       let maxAl1 := Z.max maxAl (c_align c) in            (* std::minmax(maxAlignment, alignment).second *)
       let '(g2, off, al, rs) := new_edges cp g1 offset2 maxAl1 cs' in
-      (g2, off, al, mkrec (c_code c) offset1 (c_size c) (c_align c) :: rs)
+      (g2, off, al, mkrec (c_code c) offset1 (c_size c) (c_align c) (c_mut c) :: rs)
     end.
 
   (* one iteration of the `while (true)` of pvAdd *)
@@ -148,7 +159,7 @@ Section WithL.
       | None => None
       | Some off => match add_columns cp a rs' with
                     | None => None
-                    | Some l => Some (mkrec (r_code r) off (r_size r) (r_align r) :: l)
+                    | Some l => Some (mkrec (r_code r) off (r_size r) (r_align r) (r_mut r) :: l)
                     end
       end
     end.
@@ -157,29 +168,62 @@ Section WithL.
   Fixpoint set_insert (l : list Z) (xs : list Z) : list Z :=
     match xs with [] => l | x :: xs' => set_insert (if mem x l then l else x :: l) xs' end.
 
+  (* where an allocation inside pvAdd throws (std::bad_alloc from the memory manager) *)
+  Inductive alloc_fail :=
+  | NoFail
+  | FailReserve            (* mColumns.Reserve / mFuncRecords.Reserve: nothing written yet *)
+  | FailSetCount           (* mMutableOffsets.SetCount throws: the array is as before *)
+  | FailInsert (j : nat).  (* mColumnCodeSet.Insert(begin, end) throws after j keys: the catch block removes all new keys *)
+
   Inductive add_result :=
   | Added (st : state)
   | TooMany            (* throw std::logic_error("Too many columns") -- before anything else *)
   | Refused            (* throw std::runtime_error("Cannot add columns") -- nothing written yet *)
+  | AllocFailed (st : state)   (* bad_alloc propagated; st = what is left behind *)
   | OutOfFuel          (* excluded by the theorems *)
   | AssertFails.       (* MOMO_ASSERT in pvGetOffset -- excluded by the theorems *)
 
-  (* pvAdd *)
-  Definition add (st : state) (cs : list col) : add_result :=
+  Definition set_remove (l : list Z) (xs : list Z) : list Z := filter (fun c => negb (mem c xs)) l.
+
+  (* pvAddColumns' SetBit for the mutable columns, in order *)
+  Fixpoint set_mutables (b : Z -> Z) (rs : list crec) : Z -> Z :=
+    match rs with [] => b | r :: rs' => set_mutables (if r_mut r then SetBit b (r_off r) else b) rs' end.
+
+  (* pvAdd, with the place where an allocation fails *)
+  Definition add_f (fs : alloc_fail) (st : state) (cs : list col) : add_result :=
     if Z.gtb (wrapU 64 (Z.of_nat (length cs) + Z.of_nat (length (columns st)))) maxColumnCount then TooMany else
     match search 257 st (codeParam st) cs with
     | SearchFuel => OutOfFuel
     | CannotAdd => Refused
     | Found cp a off al rs =>
-      let cset := set_insert (codeSet st) (map c_code cs) in
-      match add_columns cp a rs with
-      | None => AssertFails
-      | Some rs' => Added (mkst cp a off al cset (columns st ++ rs'))
+      match fs with
+      | FailReserve | FailSetCount => AllocFailed st
+      | _ =>
+        let n := wrapU 64 (wrapU 64 (off + 7) / 8) in
+        let mb := set_count (mutCount st) n (mutBytes st) in
+        match fs with
+        | FailInsert j =>
+          let cset1 := set_insert (codeSet st) (firstn j (map c_code cs)) in
+          AllocFailed (mkst (codeParam st) (addends st) (totalSize st) (alignment st)
+                            (set_remove cset1 (map c_code cs)) (columns st) n mb)
+        | _ =>
+          let cset := set_insert (codeSet st) (map c_code cs) in
+          match add_columns cp a rs with
+          | None => AssertFails
+          | Some rs' => Added (mkst cp a off al cset (columns st ++ rs') n (set_mutables mb rs'))
+          end
+        end
       end
     end.
 
-  (* the state after the call, as the caller observes it (an exception leaves the object as it was) *)
-  Definition after (st : state) (r : add_result) : state := match r with Added st' => st' | _ => st end.
+  Definition add := add_f NoFail.
+
+  (* the state after the call, as the caller observes it *)
+  Definition after (st : state) (r : add_result) : state :=
+    match r with Added st' => st' | AllocFailed st' => st' | _ => st end.
+
+  (* IsMutable(offset) *)
+  Definition is_mutable (st : state) (offset : Z) : bool := GetBit (mutBytes st) offset.
 
   (* GetOffset<extraCheck> without the extra check = pvGetOffset on the members *)
   Definition get_offset (st : state) (code : Z) : option Z := lookup (codeParam st) (addends st) code.
@@ -192,5 +236,8 @@ Section WithL.
     else if negb (mem code (codeSet st)) then None
     else Some (wrapU 64 (a1 + a2)).
 
+  (* a history: each Add comes with the place where an allocation fails (NoFail = none) *)
+  Definition run_f (ops : list (alloc_fail * list col)) : state :=
+    fold_left (fun st op => after st (add_f (fst op) st (snd op))) ops init.
   Definition run (ops : list (list col)) : state := fold_left (fun st cs => after st (add st cs)) ops init.
 End WithL.
